@@ -178,14 +178,26 @@ template<typename... Args> struct Sys {
         }
     }
 
+    // read from the implementation's own fields; if a refactoring renames them the harness still builds and merges on the reference model's state instead (observer list with flags, handle flags)
+    template<typename S2, typename H2> static constexpr bool known_layout_v = requires(S2 &s2, H2 &h2) { s2.m_activeSubscriptions.begin(); s2.m_observers.begin(); s2.m_observers.front().subscriptionId; s2.m_observers.front().observer->isMuted(); h2.m_id; h2.m_subject; };
     std::string key() {
+        if constexpr (!known_layout_v<Subj, Sub>) {
+            std::string k = "M:";       // observer ids only through their position in the list (they grow without bound otherwise)
+            for (auto &o : m.obs) k += fmt("%c%c,", o.muted ? 'm' : '-', o.valid ? 'v' : 'x');
+            k += "|H:";
+            for (int i = 0; i < NSLOT; i++) { int pos = -1; for (size_t j = 0; j < m.obs.size(); j++) if (m.obs[j].id == m.slot[i].obs) pos = (int)j; k += fmt("%c%d%c,", m.slot[i].st, m.slot[i].st == 'V' ? pos : -1, subject->isSubscriptionValid(handle[i]) ? 's' : '-'); }
+            return k;
+        } else return key_private(*subject);
+    }
+    template<typename S2> std::string key_private(S2 &subj) {
+        auto *subject = &subj;
         // implementation state with subscription ids replaced by their rank
         std::vector<SubscriptionId> ids(subject->m_activeSubscriptions.begin(), subject->m_activeSubscriptions.end());
         auto rank = [&](SubscriptionId id) { for (size_t i = 0; i < ids.size(); i++) if (ids[i] == id) return (int)i; return -1; };
         std::string k = "L:";
         for (auto &d : subject->m_observers) k += fmt("%d%c%c,", rank(d.subscriptionId), d.observer->isMuted() ? 'm' : '-', d.observer->isValid() ? 'v' : 'x');
         k += "|H:";
-        for (int i = 0; i < NSLOT; i++) k += fmt("%d%c,", rank(handle[i].m_id), handle[i].m_subject == nullptr ? '0' : handle[i].m_subject == subject.get() ? 's' : 'f');
+        for (int i = 0; i < NSLOT; i++) k += fmt("%d%c,", rank(handle[i].m_id), handle[i].m_subject == nullptr ? '0' : handle[i].m_subject == subject ? 's' : 'f');
         return k;
     }
 
